@@ -234,10 +234,13 @@ def _run(ctx, compare=True):
         if pipelined:
             res.count("pipelined")
             pc = r.get("pipelined_codes") or []
-            if pc != [451, 257] or r["follow_pwd"] != [257]:
+            # both commands must be answered, each exactly once; the ORDER of the two replies is not C13's
+            # subject (every command runs as its own task: with a backend that suspends in a thread pool the
+            # PWD may finish first - the pipelining caveat of C05 / finding F14)
+            if sorted(pc) != [257, 451] or r["follow_pwd"] != [257]:
                 res.oracle_failures.append({
                     "input": {"situation": sit[0], "command": sit[2], "preparation": sit[1], "backend": be, "fault_at_call": k, "all_calls_of_kind_fail": None, "pipelined_with": "PWD"},
-                    "what": "%r (backend call %d failing) and PWD sent in one segment were answered %r, then PWD -> %r (want 451, 257 and a live session)" % (sit[2], k, pc, r["follow_pwd"]),
+                    "what": "%r (backend call %d failing) and PWD sent in one segment were answered %r, then PWD -> %r (want one 451, one 257 and a live session)" % (sit[2], k, pc, r["follow_pwd"]),
                     "signature": "C13:pipelined-command-lost:%s" % sit[2].split(" ")[0].lower(),
                 })
             continue
